@@ -47,7 +47,7 @@ pub fn run(args: &Args) -> i32 {
     run.assume("the priority of a height is Scanned exactly when its block is in the wallet on the current chain; FoundNote / OpenAdjacent extensions are not constrained beyond the structural invariant");
     spanning::explore(&run);
     let plan: Vec<(&str, usize, u32, f64)> = match args.tier {
-        Tier::Quick => vec![("tiny", 14, 1, 30.0)],
+        Tier::Quick => vec![("tiny", 14, 1, 26.0)],
         Tier::Thorough => vec![("small", 14, 1, 300.0), ("mid", 12, 1, 400.0)],
     };
     for (name, depth, rewinds, wall) in plan {
